@@ -148,3 +148,18 @@ Proof. reflexivity. Qed.
 Lemma src_createTsoForwardStream_ok : src_createTsoForwardStream =
   "{ done := make(chan struct{}) ctx, cancel := context.WithCancel(s.ctx) go checkStream(ctx, cancel, done) forwardStream, err := pdpb.NewPDClient(client).Tso(ctx) done <- struct{}{} return forwardStream, cancel, err }".
 Proof. reflexivity. Qed.
+
+(* the client library's arithmetic (proof/C01_Suffix.v client_value): addLogical is  l + c << b ; processTSORequests asks for as
+   many timestamps as callers wait in the batch, refuses an answer for another count, computes the first value from THAT count
+   and hands  first + k << b  to caller k *)
+Lemma src_client_addLogical_ok : src_client_addLogical = "{ return logical + count<<suffixBits }".
+Proof. reflexivity. Qed.
+
+Lemma skel_client_processTSORequests_ok : skel_client_processTSORequests =
+  [Assign "count" ":= int64(len(requests))"; Assign "req" ":= &pdpb.TsoRequest{ Header: c.requestHeader(), Count: uint32(count), DcLocation: dcLocation, }"; Call "Send"; IfE "err != nil" [Call "finishTSORequest(requests, 0, 0, 0, err)"; Ret] []; Call "Recv"; IfE "err != nil" [Call "finishTSORequest(requests, 0, 0, 0, err)"; Ret] []; Call "GetCount"; IfE "resp.GetCount() != uint32(count)" [Call "finishTSORequest(requests, 0, 0, 0, err)"; Ret] []; Assign "physical" ":= resp.GetTimestamp().GetPhysical()"; Assign "logical" ":= resp.GetTimestamp().GetLogical()"; Assign "suffixBits" ":= resp.GetTimestamp().GetSuffixBits()"; Call "addLogical(logical, -count + 1, suffixBits)"; Assign "firstLogical" ":= addLogical(logical, -count+1, suffixBits)"; Call "compareAndSwapTS(dcLocation, physical, firstLogical, suffixBits, count)"; Call "finishTSORequest(requests, physical, firstLogical, suffixBits, nil)"; Ret].
+Proof. reflexivity. Qed.
+
+Lemma src_client_finishTSORequest_ok : src_client_finishTSORequest =
+  "{ for i := 0; i < len(requests); i++ { if span := opentracing.SpanFromContext(requests[i].requestCtx); span != nil { span.Finish() } requests[i].physical, requests[i].logical = physical, addLogical(firstLogical, int64(i), suffixBits) requests[i].done <- err } }".
+Proof. reflexivity. Qed.
+
